@@ -302,6 +302,26 @@ static void run_case(int ki, int alg, int base, int pinroute)
 		for (int j = 0; j < c; j++) { size_t l = strlen(s2); s2[l] = B64A[vh_below(&rng, 64)]; s2[l + 1] = 0; }
 		t = join3(h, p, s2); try_token(M_EXT_CH, c, t); free(t); free(s2);
 	}
+	/* long extensions: lengths around powers of two (a length difference kept in a narrow integer wraps there) */
+	{
+		static const int EXT[] = { 63, 64, 65, 127, 128, 192, 255, 256, 257, 511, 512, 768, 1024, 4096, 65535, 65536, 65537 };
+		for (size_t e = 0; e < sizeof(EXT) / sizeof(EXT[0]); e++) {
+			size_t n = (size_t)EXT[e], base = strlen(s);
+			char *s2 = malloc(base + n + 1), *t;
+			unsigned char *b2;
+			if (!thorough && n > 1100 && n != 65536) { free(s2); continue; }
+			memcpy(s2, s, base);
+			for (size_t j = 0; j < n; j++) s2[base + j] = (e & 1) ? 'A' : B64A[vh_below(&rng, 64)];
+			s2[base + n] = 0;
+			t = join3(h, p, s2); try_token(M_EXT_CH, 1000 + (int)n, t); free(t); free(s2);
+			if (n <= 4096) {
+				b2 = malloc((size_t)sl + n);
+				memcpy(b2, sig, (size_t)sl); vh_rand_bytes(&rng, b2 + sl, n);
+				with_sig_bytes(M_EXT_BY, 1000 + (int)n, h, p, b2, (size_t)sl + n);
+				free(b2);
+			}
+		}
+	}
 	for (int c = 1; c <= 3; c++) {
 		if (sl > c) with_sig_bytes(M_TRUNC_BY, c, h, p, sig, (size_t)(sl - c));
 		memcpy(tmp, sig, (size_t)sl); memset(tmp + sl, 0, (size_t)c); with_sig_bytes(M_EXT_BY, c, h, p, tmp, (size_t)(sl + c));
